@@ -7,6 +7,8 @@ import (
 	"os"
 
 	"verif/harness/algochk"
+	"verif/harness/ansichk"
+	"verif/harness/fieldchk"
 	"verif/harness/vk"
 )
 
@@ -14,6 +16,8 @@ var checks = map[string]func(prop, tier string) int{
 	"C02": algochk.Main,
 	"C03": algochk.Main,
 	"C05": algochk.Main,
+	"C10": fieldchk.Main,
+	"C11": ansichk.Main,
 }
 
 func main() {
